@@ -271,6 +271,8 @@ pub fn supervise(args: &[String]) -> i32 {
                 let slots = read_slots(base);
                 if slots.len() == 1 {
                     record_skip_to(&skip, &slots[0].1, slots[0].2, "abort", &slots[0].3);
+                    // kept after the run (the memory-monitor check pairs these with sanitizer reports)
+                    record_skip_to(&dir.join("aborts.jsonl"), &slots[0].1, slots[0].2, &format!("abort:{status}"), &slots[0].3);
                     eprintln!("verif-guard: child died ({status}); in-flight statement recorded as abort: {}", crate::infra::one_line(&slots[0].1, 200));
                     force_single = false;
                     continue;
